@@ -229,6 +229,7 @@ def mon_c02(h, obs):
                     hits.append(Hit("C02/interchain-counter-mismatch",
                                     f"GetInterchain({svc}).InterchainCounter[{t}] = {v} but accepted requests are {acc_req.get((svc, t), [])}",
                                     detail=st[3]))
+    hits += route_hits(h, obs, "C02")
     return hits
 
 
@@ -377,7 +378,29 @@ def mon_c04(h, obs):
 
 
 def mon_c06(h, obs):
-    return mon_c04_c06(h, obs, "C06")
+    return mon_c04_c06(h, obs, "C06") + route_hits(h, obs, "C06")
+
+
+def route_hits(h, obs, prop):
+    """what the interchain router hands to the piers (`route=` of a block line, harness route.go: the real router's subscription
+    feed and its fetch-again path, compared with the block's interchain meta): the transactions of a destination belong to C02's
+    delivery clause, the timed-out ids to C06, the one-to-many notifications to C05"""
+    hits = []
+    for op, o in zip(h.ops, obs):
+        if not o or " route=" not in o:
+            continue
+        r = o.rsplit(" route=", 1)[1].split()[0]
+        if r == "ok" or not r.startswith("bad:"):
+            continue
+        parts = r.split(":")
+        what = parts[3] if len(parts) > 3 else "?"
+        kind = what.split("=")[0].split("[")[0]
+        owner = "C06" if kind == "timeouts" else ("C05" if kind == "multi" else "C02")
+        if owner == prop:
+            hits.append(Hit(f"{prop}/router-delivery/{parts[1] if len(parts) > 1 else '?'}/{kind}",
+                            f"after `{op[:70]}` the router hands pier {parts[2] if len(parts) > 2 else '?'} something else than the block's interchain meta says ({r})", detail=op))
+            break
+    return hits
 
 
 def tags_c04(h, obs):
@@ -699,7 +722,7 @@ def _group_of(tx):
 
 
 def mon_c05(h, obs):
-    return [x for x in mon_groups(h, obs) if x.fp.startswith("C05/")]
+    return [x for x in mon_groups(h, obs) if x.fp.startswith("C05/")] + route_hits(h, obs, "C05")
 
 
 def mon_c06_groups(h, obs):
